@@ -626,7 +626,8 @@ int main(int argc, char *argv[])
       }
       else
       {
-         cpd.lang_forced = true;
+         cpd.lang_forced       = true;
+         cpd.lang_flags_forced = cpd.lang_flags;
       }
    }
    // Get the source file name
@@ -1527,6 +1528,12 @@ static void do_source_file(const char *filename_in,
    bool     need_backup = false;
    file_mem fm;
    string   filename_tmp;
+
+   if (cpd.lang_forced)
+   {
+      // the tokenizer may have added LANG_OC while parsing the previous file
+      cpd.lang_flags = cpd.lang_flags_forced;
+   }
 
    // Do some simple language detection based on the filename extension
    if (  !cpd.lang_forced
